@@ -17,7 +17,9 @@ fn main() {
         let lim = libc::rlimit { rlim_cur: 65536, rlim_max: 65536 };
         libc::setrlimit(libc::RLIMIT_NOFILE, &lim);
     }
-    common::quiet_panics();
+    if std::env::var("VERIF_PANIC_TRACE").is_err() {
+        common::quiet_panics();
+    }
     common::thread_init();
     let ctx = Ctx::new(args.clone());
     let replay_case = args.replay.as_ref().map(load_replay);
@@ -42,10 +44,16 @@ fn main() {
         ("C15", Some(r)) => checks::c15::replay(&ctx, &r["case"]),
         ("C18", None) => checks::c18::run(&ctx),
         ("C18", Some(r)) => checks::c18::replay(&ctx, &r["case"]),
+        ("C01DBG", _) => {
+            checks::c01::debug(&args);
+            std::process::exit(0);
+        }
         ("SIMSMOKE", _) => {
             checks::simsmoke::run();
             std::process::exit(0);
         }
+        ("C01", None) => checks::c01::run(&ctx),
+        ("C01", Some(r)) => checks::c01::replay(&ctx, &r["case"]),
         ("C05", None) => checks::cfgstate::run_c05(&ctx),
         ("C06", None) => checks::cfgstate::run_c06(&ctx),
         ("C07", None) => checks::cfgstate::run_c07a(&ctx),
